@@ -17,6 +17,7 @@ import z3
 from . import solve
 from .frontend import Program, FuncInfo
 from .values import (
+    forall,
     ANY, BOOL, FUNC, INT, NONE, STR, XINT, LIST, OPT, REF, SET, TUPLE, Ty, Val, VNONE,
     Heap, fresh, from_int, to_int, vbool, vint, vlist, vref, vxint, I, B, CALLREF,
 )
@@ -57,16 +58,38 @@ def exc_matches(exc, handler):
     return handler in ("Exception", "BaseException")
 
 
-@dataclass
 class Frame:
     """What a function / loop may modify among the locations that existed on entry.
-    Fresh objects and lists (reference >= alloc on entry) may always be written."""
-    fields: dict = field(default_factory=dict)  # name -> list of object terms | "ALL"
-    lists: object = None  # list of list-ref terms | callable(l) -> z3 Bool | None
-    allocates: object = False  # False | True | "lists" (only list memory is allocated)
-    keep_facts: object = None  # callable(h_before, h_after) -> [z3]: explicit (prenexed)
-    #                            statement of what the generic list frame implies; used
-    #                            instead of it when a caller assumes this frame
+    Fresh objects and lists (reference >= alloc on entry) may always be written.
+
+    fields        name -> list of object terms | "ALL" | callable(x) -> Bool
+    lists         core-region lists: list of terms | callable(l) -> Bool | None
+    olists        observer-region lists: list of terms | "ALL" | callable | None
+    alloc_objects False | True | [field names]: the callee creates objects; the named
+                  fields (all if True) may have new values at fresh references
+    alloc_lists   the callee allocates core-region lists
+    keep_facts    callable(h_before, h_after) -> [z3]: explicit (prenexed) statement of
+                  what the generic core-list frame implies; assumed by callers instead
+    allocates     convenience: True = objects (all fields) + lists; "lists" = lists only
+    """
+
+    def __init__(self, fields=None, lists=None, olists=None, alloc_objects=False, alloc_lists=False,
+                 keep_facts=None, allocates=False):
+        self.fields = dict(fields or {})
+        self.lists = lists
+        self.olists = olists
+        self.alloc_objects = alloc_objects
+        self.alloc_lists = alloc_lists
+        self.keep_facts = keep_facts
+        if allocates is True:
+            self.alloc_objects = True
+            self.alloc_lists = True
+        elif allocates == "lists":
+            self.alloc_lists = True
+
+    @property
+    def bumps_alloc(self):
+        return bool(self.alloc_objects or self.alloc_lists or self.olists is not None)
 
     def list_pred(self, l):
         if self.lists is None:
@@ -76,6 +99,17 @@ class Frame:
         if not self.lists:
             return z3.BoolVal(False)
         return z3.Or([l == x for x in self.lists])
+
+    def olist_pred(self, l):
+        if self.olists is None:
+            return z3.BoolVal(False)
+        if isinstance(self.olists, str) and self.olists == "ALL":
+            return z3.BoolVal(True)
+        if callable(self.olists):
+            return self.olists(l)
+        if not self.olists:
+            return z3.BoolVal(False)
+        return z3.Or([l == x for x in self.olists])
 
     def field_pred(self, name, x):
         objs = self.fields.get(name)
@@ -176,10 +210,11 @@ class Contract:
     def modifies(self, c):
         return PURE
 
-    def ghost(self, c, h):
-        """Ghost update applied to the final heap when the body is verified (and
-        described by `ensures` for callers).  Returns the new heap."""
-        return h
+    def ghost(self, c, st):
+        """Ghost update applied to the final state (st.heap) of every normal path when
+        the body is verified; callers learn about it through `ensures`/`modifies`.
+        May only write ghost fields (names starting with `$`)."""
+        return None
 
 
 class State:
@@ -455,15 +490,19 @@ class Engine:
             st.assume(p)
         # vacuity guard: the precondition must be satisfiable
         self.cover_pc = list(st.pc)
+        self.anchors_hit = set()
         finals = self.exec_block(fi.body(), st)
+        for key in getattr(contract, "ghost_after", {}) or {}:
+            if key not in self.anchors_hit:
+                raise OutsideSubset(f"drift: ghost anchor `{key}` not found in {contract.name}")
         raise_specs = contract.raises(c0)
         nret = 0
         for f in finals:
             if f.status in ("run", "ret"):
                 nret += 1
                 res = f.value if f.status == "ret" and f.value is not None else VNONE
-                hfin = contract.ghost(Ctx(self, h0, f.heap, args, res), f.heap)
-                f.heap = hfin
+                contract.ghost(Ctx(self, h0, f.heap, args, res), f)
+                hfin = f.heap
                 c = Ctx(self, h0, hfin, args, res)
                 for exn, label, when in raise_specs:
                     self.oblige(f, f"no-raise-cond:{exn}:{label}", z3.Not(when), "post",
@@ -500,20 +539,25 @@ class Engine:
                 z3.And(x > 0, x < h0.alloc, z3.Not(allowed)), z3.Select(a1, x) == z3.Select(a0, x)
             )
             self.oblige(st, f"{prefix}:field:{name}", goal, "frame")
-        if not (h0.Len.eq(h1.Len) and h0.El.eq(h1.El) and h0.ElX.eq(h1.ElX)):
+        for region in ("c", "o"):
+            a0, a1 = h0.arrs(region), h1.arrs(region)
+            if all(x.eq(y) for x, y in zip(a0, a1)):
+                continue
             l = fresh("fl")
             j = fresh("fj")
-            allowed = frame.list_pred(l)
-            if not is_lit_true(allowed):
-                goal = z3.Implies(
-                    z3.And(l > 0, l < h0.alloc, z3.Not(allowed)),
-                    z3.And(
-                        h1.len(l) == h0.len(l),
-                        z3.Implies(z3.And(j >= 0, j < h0.len(l)),
-                                   z3.And(h1.at(l, j) == h0.at(l, j), h1.atx(l, j) == h0.atx(l, j))),
-                    ),
-                )
-                self.oblige(st, f"{prefix}:lists", goal, "frame")
+            allowed = frame.list_pred(l) if region == "c" else frame.olist_pred(l)
+            if is_lit_true(allowed):
+                continue
+            lr = (l, region)
+            goal = z3.Implies(
+                z3.And(l > 0, l < h0.alloc, z3.Not(allowed)),
+                z3.And(
+                    h1.len(lr) == h0.len(lr),
+                    z3.Implies(z3.And(j >= 0, j < h0.len(lr)),
+                               z3.And(h1.at(lr, j) == h0.at(lr, j), h1.atx(lr, j) == h0.atx(lr, j))),
+                ),
+            )
+            self.oblige(st, f"{prefix}:lists" + ("" if region == "c" else "-observer-region"), goal, "frame")
 
     # ------------------------------------------------------------ havoc/frames
     def havoc(self, st: State, frame: Frame, hpre: Heap | None = None):
@@ -522,63 +566,75 @@ class Engine:
         hpre = hpre or h
         hn = h.copy()
         x = fresh("hx")
+        ao = frame.alloc_objects
+
+        def fresh_may_have(name):
+            return ao is True or (isinstance(ao, (list, tuple)) and name in ao)
+
         for name, objs in frame.fields.items():
             a0 = h.farr(name)
-            if isinstance(objs, list) and frame.allocates in (False, "lists"):
+            if isinstance(objs, list) and not fresh_may_have(name):
                 a1 = a0
                 for o in objs:
                     a1 = z3.Store(a1, o, fresh(f"hv_{name}"))
                 hn.fields[name] = a1
+            elif isinstance(objs, str) and objs == "ALL":
+                hn.fields[name] = fresh(f"F_{name}", a0.sort())
             else:
                 a1 = fresh(f"F_{name}", a0.sort())
                 hn.fields[name] = a1
                 keep = z3.Not(frame.field_pred(name, x))
-                st.assume(z3.ForAll([x], z3.Implies(z3.And(x < hpre.alloc, keep),
-                                                    z3.Select(a1, x) == z3.Select(a0, x)),
-                                    patterns=[z3.Select(a1, x)]))
-        if frame.allocates == "lists":
-            na = fresh("alloc")
-            st.assume(na >= h.alloc)
-            hn.alloc = na
-        elif frame.allocates:
-            # fields of fresh objects are unconstrained except by ensures
-            for name in h.field_names():
+                st.assume(forall([x], z3.Implies(z3.And(x < hpre.alloc, keep),
+                                                 z3.Select(a1, x) == z3.Select(a0, x)),
+                                 patterns=[z3.Select(a1, x)]))
+        if ao:
+            names = h.field_names() if ao is True else list(ao)
+            for name in names:
                 if name in frame.fields:
                     continue
                 a0 = h.farr(name)
                 a1 = fresh(f"F_{name}", a0.sort())
                 hn.fields[name] = a1
-                st.assume(z3.ForAll([x], z3.Implies(x < hpre.alloc, z3.Select(a1, x) == z3.Select(a0, x)),
-                                    patterns=[z3.Select(a1, x)]))
+                st.assume(forall([x], z3.Implies(x < hpre.alloc, z3.Select(a1, x) == z3.Select(a0, x)),
+                                 patterns=[z3.Select(a1, x)]))
+        if frame.bumps_alloc:
             na = fresh("alloc")
             st.assume(na >= h.alloc)
             hn.alloc = na
-        lists_changed = frame.lists is not None and (callable(frame.lists) or len(frame.lists) > 0)
-        if lists_changed or frame.allocates:
-            if isinstance(frame.lists, list) and not frame.allocates:
-                Len, El, ElX = h.Len, h.El, h.ElX
-                for l in frame.lists:
+        for region in ("c", "o"):
+            spec = frame.lists if region == "c" else frame.olists
+            changed = spec is not None and (callable(spec) or isinstance(spec, str) or len(spec) > 0)
+            allocs = frame.alloc_lists if region == "c" else False
+            if not (changed or allocs):
+                continue
+            Len0, El0, ElX0 = h.arrs(region)
+            if isinstance(spec, str) and spec == "ALL":
+                hn.mem[region] = (fresh("Len_" + region, Len0.sort()), fresh("El_" + region, El0.sort()),
+                                  fresh("ElX_" + region, ElX0.sort()))
+                continue
+            if isinstance(spec, list) and not allocs:
+                Len, El, ElX = Len0, El0, ElX0
+                for l in spec:
                     Len = z3.Store(Len, l, fresh("hv_len"))
                     El = z3.Store(El, l, fresh("hv_el", z3.ArraySort(I, I)))
                     ElX = z3.Store(ElX, l, fresh("hv_elx", z3.ArraySort(I, I)))
-                hn.Len, hn.El, hn.ElX = Len, El, ElX
-            else:
-                l = fresh("hl")
-                Len = fresh("Len", h.Len.sort())
-                El = fresh("El", h.El.sort())
-                ElX = fresh("ElX", h.ElX.sort())
-                keep = z3.Not(frame.list_pred(l))
-                if frame.keep_facts is not None:
-                    hn.Len, hn.El, hn.ElX = Len, El, ElX
-                    for fct in frame.keep_facts(h, hn):
-                        st.assume(fct)
-                    return hn
-                st.assume(z3.ForAll([l], z3.Implies(z3.And(l < hpre.alloc, keep),
-                                                    z3.And(z3.Select(Len, l) == z3.Select(h.Len, l),
-                                                           z3.Select(El, l) == z3.Select(h.El, l),
-                                                           z3.Select(ElX, l) == z3.Select(h.ElX, l))),
-                                    patterns=[z3.Select(Len, l), z3.Select(El, l), z3.Select(ElX, l)]))
-                hn.Len, hn.El, hn.ElX = Len, El, ElX
+                hn.mem[region] = (Len, El, ElX)
+                continue
+            l = fresh("hl")
+            Len = fresh("Len_" + region, Len0.sort())
+            El = fresh("El_" + region, El0.sort())
+            ElX = fresh("ElX_" + region, ElX0.sort())
+            hn.mem[region] = (Len, El, ElX)
+            if region == "c" and frame.keep_facts is not None:
+                for fct in frame.keep_facts(h, hn):
+                    st.assume(fct)
+                continue
+            pred = frame.list_pred(l) if region == "c" else frame.olist_pred(l)
+            st.assume(forall([l], z3.Implies(z3.And(l < hpre.alloc, z3.Not(pred)),
+                                             z3.And(z3.Select(Len, l) == z3.Select(Len0, l),
+                                                    z3.Select(El, l) == z3.Select(El0, l),
+                                                    z3.Select(ElX, l) == z3.Select(ElX0, l))),
+                             patterns=[z3.Select(Len, l), z3.Select(El, l), z3.Select(ElX, l)]))
         return hn
 
     # -------------------------------------------------------------- statements
@@ -586,11 +642,23 @@ class Engine:
         states = [st]
         for s in stmts:
             nxt = []
+            anchors = getattr(self.cur, "ghost_after", None)
+            hook = None
+            if anchors:
+                key = ast.unparse(s)
+                hook = anchors.get(key)
+                if hook is not None:
+                    self.anchors_hit.add(key)
             for cur in states:
                 if cur.status != "run":
                     nxt.append(cur)
                 else:
-                    nxt.extend(self.exec_stmt(s, cur))
+                    res = self.exec_stmt(s, cur)
+                    if hook is not None:
+                        for r in res:
+                            if r.status == "run":
+                                hook(Ctx(self, self.h0, r.heap, self.args0), r)
+                    nxt.extend(res)
             states = nxt
             if len(states) > self.max_paths:
                 raise OutsideSubset(f"path explosion (> {self.max_paths}) in {self.cur.name}")
@@ -803,6 +871,13 @@ class Engine:
             if con is None:
                 raise OutsideSubset(f"no contract for setter {setter.qualname}")
             return [r[0] for r in self.apply_contract(con, setter, [obj, v], {}, st, node)]
+        if not attr.startswith("$"):
+            fty = self.field_ty(cls, attr)
+            if v.ty.kind == "list" and fty.kind == "list":
+                if v.ty.region != fty.region:
+                    raise OutsideSubset(
+                        f"region mismatch: a list of region {v.ty.region!r} is stored in field {cls}.{attr} "
+                        f"declared in region {fty.region!r} (line {getattr(node, 'lineno', 0)})")
         st.heap = st.heap.put(attr, obj.t, to_int(v))
         if v.ty.kind == "func":
             self.callable_fields.setdefault(attr, v.t)
@@ -812,16 +887,30 @@ class Engine:
         if lst.ty.kind != "list":
             raise OutsideSubset(f"item store on {lst.ty}")
         h = st.heap
-        n = h.len(lst.t)
+        n = h.len(lst)
         j = z3.If(idx.t < 0, idx.t + n, idx.t)
         ok = z3.And(j >= 0, j < n)
         okst, bad = self.split(st, ok, "IndexError", node)
         out = list(bad)
         if okst is not None:
             isinf = v.aux if v.ty.kind == "xint" else (z3.BoolVal(False) if lst.ty.arg.kind == "xint" else None)
-            okst.heap = okst.heap.set_at(lst.t, j, to_int(v), isinf)
+            self.check_region(lst, v, node)
+            okst.heap = okst.heap.set_at(lst, j, to_int(v), isinf)
             out.append(okst)
         return out
+
+    def check_region(self, lst: Val, v: Val, node):
+        el = lst.ty.arg
+        if v.ty.kind == "list" and el is not None and el.kind == "list" and el.region != v.ty.region:
+            raise OutsideSubset(f"region mismatch storing a list into a list (line {getattr(node, 'lineno', 0)})")
+
+    @property
+    def alloc_region(self):
+        """lists allocated inside methods of observer classes live in the observer region"""
+        cls = self.cur_fi.cls if self.cur_fi else None
+        if cls and self.prog.is_subclass(cls, "DispatcherObserver"):
+            return "o"
+        return getattr(self.cur, "alloc_region", "c")
 
     def split(self, st: State, ok, exc, node):
         """Returns (state where ok holds or None, [raising states])."""
@@ -1022,7 +1111,7 @@ class Engine:
             return v.t
         if v.ty.kind in ("list", "deque"):
             elem = v.ty.arg
-            lt = v.t
+            lt = v
 
             def get(h, j, elem=elem, lt=lt):
                 return from_int(elem, h.at(lt, j), h.atx(lt, j) if elem.kind == "xint" else None)
@@ -1140,13 +1229,17 @@ class Engine:
         st.heap = st.heap.with_alloc(r + 1)
         return r
 
+    def new_list(self, st, elem, region=None):
+        """a fresh list reference of the region allocations of the current function go to"""
+        return vlist(elem, self.alloc_ref(st), region or self.alloc_region)
+
     def alloc_list(self, st, elem, vals):
-        r = self.alloc_ref(st)
+        r = self.new_list(st, elem)
         h = st.heap.set_len(r, z3.IntVal(len(vals)))
         for k, v in enumerate(vals):
             h = h.set_at(r, z3.IntVal(k), to_int(v), v.aux if v.ty.kind == "xint" else None)
         st.heap = h
-        return vlist(elem, r)
+        return r
 
     def ev_Attribute(self, e, st):
         out = []
@@ -1227,14 +1320,14 @@ class Engine:
         if base.ty.kind not in ("list", "deque"):
             raise OutsideSubset(f"subscript of {base.ty} at line {node.lineno}")
         h = st.heap
-        n = h.len(base.t)
+        n = h.len(base)
         it = idx.t if idx.ty.kind == "int" else z3.If(idx.t, 1, 0)
         j = z3.If(it < 0, it + n, it)
         okst, bad = self.split(st, z3.And(j >= 0, j < n), "IndexError", node)
         out = [(b, None) for b in bad]
         if okst is not None:
             elem = base.ty.arg
-            v = from_int(elem, okst.heap.at(base.t, j), okst.heap.atx(base.t, j) if elem.kind == "xint" else None)
+            v = from_int(elem, okst.heap.at(base, j), okst.heap.atx(base, j) if elem.kind == "xint" else None)
             if v.ty.kind in ("ref", "list", "any", "deque") and okst.pure is None:
                 okst.assume(z3.And(v.t >= 0, v.t < okst.heap.alloc))
             out.append((okst, v))
@@ -1254,7 +1347,7 @@ class Engine:
             if base.ty.kind != "list":
                 raise OutsideSubset(f"slice of {base.ty}")
             k = 1
-            n = s.heap.len(base.t)
+            n = s.heap.len(base)
             lo = z3.IntVal(0)
             hi = n
             if sl.lower is not None:
@@ -1271,16 +1364,16 @@ class Engine:
         return z3.If(t2 < 0, 0, z3.If(t2 > n, n, t2))
 
     def materialise_slice(self, st, base, lo, hi):
-        r = self.alloc_ref(st)
+        r = self.new_list(st, base.ty.arg)
         ln = z3.If(hi > lo, hi - lo, 0)
         h = st.heap.set_len(r, ln)
         st.heap = h
         q = fresh("sq")
-        st.assume(z3.ForAll([q], z3.Implies(z3.And(q >= 0, q < ln),
-                                            z3.And(h.at(r, q) == h.at(base.t, lo + q),
-                                                   h.atx(r, q) == h.atx(base.t, lo + q))),
+        st.assume(forall([q], z3.Implies(z3.And(q >= 0, q < ln),
+                                            z3.And(h.at(r, q) == h.at(base, lo + q),
+                                                   h.atx(r, q) == h.atx(base, lo + q))),
                             patterns=[h.at(r, q)]))
-        return vlist(base.ty.arg, r)
+        return r
 
     # boolean / arithmetic -------------------------------------------------
     def truthy(self, v: Val, st):
@@ -1290,7 +1383,7 @@ class Engine:
         if k == "int":
             return v.t != 0
         if k in ("list", "deque"):
-            return st.heap.len(v.t) > 0
+            return st.heap.len(v) > 0
         if k in ("ref", "any", "callref"):
             return v.t != 0
         if k == "none":
@@ -1426,32 +1519,27 @@ class Engine:
 
     def list_repeat(self, st, a: Val, b: Val):
         h = st.heap
-        n1 = h.len(a.t)
+        n1 = h.len(a)
         if not z3.is_int_value(z3.simplify(n1)) or z3.simplify(n1).as_long() != 1:
             raise OutsideSubset("list repetition of a list that is not a one-element display")
-        x = h.at(a.t, 0)
-        xinf = z3.Select(z3.Select(h.ElX, a.t), 0)
-        r = self.alloc_ref(st)
-        h = st.heap
+        x = h.at(a, 0)
+        xinf = z3.Select(h.elxarr(a), 0)
+        r = self.new_list(st, a.ty.arg)
         n = z3.If(b.t > 0, b.t, 0)
-        h2 = h.copy()
-        h2.Len = z3.Store(h.Len, r, n)
-        h2.El = z3.Store(h.El, r, z3.K(I, x))
-        h2.ElX = z3.Store(h.ElX, r, z3.K(I, xinf))
-        st.heap = h2
-        return vlist(a.ty.arg, r)
+        st.heap = st.heap.set_len(r, n).set_elarr(r, z3.K(I, x), z3.K(I, xinf))
+        return r
 
     def list_concat(self, st, a, b):
-        r = self.alloc_ref(st)
+        r = self.new_list(st, a.ty.arg)
         h = st.heap
-        na, nb = h.len(a.t), h.len(b.t)
+        na, nb = h.len(a), h.len(b)
         h = h.set_len(r, na + nb)
         st.heap = h
         q = fresh("cq")
-        st.assume(z3.ForAll([q], z3.Implies(z3.And(q >= 0, q < na + nb),
-                                            h.at(r, q) == z3.If(q < na, h.at(a.t, q), h.at(b.t, q - na))),
+        st.assume(forall([q], z3.Implies(z3.And(q >= 0, q < na + nb),
+                                            h.at(r, q) == z3.If(q < na, h.at(a, q), h.at(b, q - na))),
                             patterns=[h.at(r, q)]))
-        return vlist(a.ty.arg, r)
+        return r
 
     def ev_Compare(self, e, st):
         out = []
@@ -1546,9 +1634,9 @@ class Engine:
             q = fresh("mq")
             xi = to_int(x) if x.ty.kind != "opt" else None
             if x.ty.kind == "opt":
-                return z3.And(z3.Not(x.aux), z3.Exists([q], z3.And(q >= 0, q < st.heap.len(coll.t),
-                                                                  st.heap.at(coll.t, q) == x.t.t)))
-            return z3.Exists([q], z3.And(q >= 0, q < st.heap.len(coll.t), st.heap.at(coll.t, q) == xi))
+                return z3.And(z3.Not(x.aux), z3.Exists([q], z3.And(q >= 0, q < st.heap.len(coll),
+                                                                  st.heap.at(coll, q) == x.t.t)))
+            return z3.Exists([q], z3.And(q >= 0, q < st.heap.len(coll), st.heap.at(coll, q) == xi))
         if k == "set":
             return z3.Select(coll.t, to_int(x))
         if k == "tuple":
